@@ -47,39 +47,44 @@ func VH_C20_WritersAndTransforms() {
 	s.Items[0].EndAt = s.Items[0].StartAt + 10*time.Second
 	s.Items = append(s.Items, &Item{StartAt: 30 * time.Second, EndAt: 31 * time.Second, Lines: []Line{{Items: []LineItem{{Text: "b"}}}}})
 	op := choose(12)
+	op2 := choose(13) // a second call on the same list (12: none): state a call leaves in the list must not alias package state
 	if choose(2) == 1 {
 		s.Metadata.SSAScriptType = "v4.00+"
 	}
 	vfreeze()
-	var buf bytes.Buffer
-	switch op {
-	case 0:
-		vassert(s.WriteToSRT(&buf) == nil, "C20 srt write")
-	case 1:
-		vassert(s.WriteToWebVTT(&buf) == nil, "C20 vtt write")
-	case 2:
-		vassert(s.WriteToSSA(&buf) == nil, "C20 ssa write")
-	case 3:
-		vassert(s.WriteToTTML(&buf) == nil, "C20 ttml write")
-	case 4:
-		s.Add(time.Second)
-	case 5:
-		s.Fragment(7 * time.Second)
-	case 6:
-		s.Unfragment()
-	case 7:
-		o := vc19ListK(1, 1, 1)
-		s.Merge(o)
-	case 8:
-		s.Optimize()
-	case 9:
-		s.ApplyLinearCorrection(0, time.Second, 10*time.Second, 12*time.Second)
-	case 10:
-		s.ForceDuration(20*time.Second, true)
-	case 11:
-		s.RemoveStyling()
-		s.Order()
+	apply := func(op int) {
+		var buf bytes.Buffer
+		switch op {
+		case 0:
+			vassert(s.WriteToSRT(&buf) == nil, "C20 srt write")
+		case 1:
+			vassert(s.WriteToWebVTT(&buf) == nil, "C20 vtt write")
+		case 2:
+			vassert(s.WriteToSSA(&buf) == nil, "C20 ssa write")
+		case 3:
+			vassert(s.WriteToTTML(&buf) == nil, "C20 ttml write")
+		case 4:
+			s.Add(time.Second)
+		case 5:
+			s.Fragment(7 * time.Second)
+		case 6:
+			s.Unfragment()
+		case 7:
+			o := vc19ListK(1, 1, 1)
+			s.Merge(o)
+		case 8:
+			s.Optimize()
+		case 9:
+			s.ApplyLinearCorrection(0, time.Second, 10*time.Second, 12*time.Second)
+		case 10:
+			s.ForceDuration(40*time.Second, true)
+		case 11:
+			s.RemoveStyling()
+			s.Order()
+		}
 	}
+	apply(op)
+	apply(op2)
 	vreach("end")
 }
 
